@@ -12,6 +12,7 @@ import (
 	channelstore "github.com/WuKongIM/WuKongIM/pkg/channel/store"
 	"github.com/WuKongIM/WuKongIM/pkg/cluster"
 	"github.com/WuKongIM/WuKongIM/pkg/cluster/channels"
+	"github.com/WuKongIM/WuKongIM/pkg/cluster/routing"
 	dbengine "github.com/WuKongIM/WuKongIM/pkg/db/internal/engine"
 	metadb "github.com/WuKongIM/WuKongIM/pkg/db/meta"
 	"github.com/cockroachdb/pebble/v2"
@@ -94,6 +95,58 @@ func (e *engine) makeReaders() error {
 		simHashSlot = slot
 		e.mgmt[id] = node
 		e.readers[id] = infracluster.NewChannelMessageReader(node)
+		if mdb, ok := nd.fac.(*channelstore.MessageDBFactory); ok {
+			// the node-level retention GC driver needs the MessageDB catalog; one channel
+			// per catalog page so that its cursor really pages, trim budget from the run's regime
+			maxMsgs, maxBytes := 0, 0
+			switch e.c.trimLimit {
+			case 1:
+				maxMsgs = 2
+			case 2:
+				maxBytes = 8
+			}
+			batch := 1
+			if e.c.trimLimit == 0 {
+				batch = 2
+			}
+			cluster.VerifEnableRetentionGC(node, mdb, simMetaDB, uint64(id), batch, maxMsgs, maxBytes)
+			if err := e.seedSideChannels(nd); err != nil {
+				return err
+			}
+		}
+	}
+	if e.c.msgdb {
+		// "side1" has authoritative metadata with a boundary but no runtime on any
+		// node (its apply fails: the pass must carry on); "side2" has rows only
+		slot := routingHashSlot("side1")
+		err := simMetaDB.ForHashSlot(slot).UpsertChannelRuntimeMeta(context.Background(), metadb.ChannelRuntimeMeta{
+			ChannelID: "side1", ChannelType: int64(e.w.id.Type), ChannelEpoch: 1, LeaderEpoch: 1, Replicas: []uint64{1, 2, 3}, ISR: []uint64{1, 2, 3},
+			Leader: 1, MinISR: 2, Status: uint8(ch.StatusActive), RetentionThroughSeq: 2, RetentionUpdatedAtMS: 1,
+		})
+		if err != nil {
+			return fmt.Errorf("side channel metadata: %w", err)
+		}
+	}
+	return nil
+}
+
+func routingHashSlot(key string) uint16 { return routing.HashSlotForKey(key, 4) }
+
+// seedSideChannels puts two more channels into the node's MessageDB catalog.
+func (e *engine) seedSideChannels(nd *cnode) error {
+	for k, name := range []string{"side1", "side2"} {
+		base := uint64(900 + 10*k) // message ids are unique per MessageDB
+		id := ch.ChannelID{ID: name, Type: e.w.id.Type}
+		st, err := nd.fac.ChannelStore(ch.ChannelKeyForID(id), id)
+		if err != nil {
+			return err
+		}
+		recs := []ch.Record{{ID: base + 1, Payload: []byte("a"), SizeBytes: 1}, {ID: base + 2, Payload: []byte("b"), SizeBytes: 1}, {ID: base + 3, Payload: []byte("c"), SizeBytes: 1}}
+		_, err = st.AppendLeader(context.Background(), channelstore.AppendLeaderRequest{Records: recs})
+		_ = st.Close()
+		if err != nil {
+			return fmt.Errorf("seed %s on node %d: %w", name, nd.id, err)
+		}
 	}
 	return nil
 }
@@ -310,7 +363,11 @@ func (e *engine) startOp() {
 	if e.c.mgmtReads {
 		mg = 3
 	}
-	kind := tp.Weighted([]int{6, 5, 2, 1, 4, 2, mg})
+	gc := 0
+	if e.c.msgdb {
+		gc = 3 // the node-level retention GC pass pages the MessageDB channel catalog; appended last so older tapes keep their meaning
+	}
+	kind := tp.Weighted([]int{6, 5, 2, 1, 4, 2, mg, gc})
 	if (kind == 0 || kind == 5) && w.svcBusy(node) {
 		// quorum mode only: one metadata-lock taker per node at a time (see cworld.svcIn)
 		e.r.Probe("quorum.lock_taker_deferred")
@@ -331,7 +388,69 @@ func (e *engine) startOp() {
 		e.opApplyMeta(node)
 	case 6:
 		e.opMgmt(node)
+	case 7:
+		e.opGC(node)
 	}
+}
+
+type gcResult = cluster.ChannelRetentionGCResult
+
+// gcCycle follows the driver's catalog cursor on one node from the first page to
+// the page that reports no more entries.
+type gcCycle struct {
+	atStart int // channels in the node's catalog when the cycle began
+	passes  int
+	scanned int
+}
+
+// catalogSize counts the channels in a node's MessageDB catalog (-1: not a MessageDB node or unreadable).
+func (e *engine) catalogSize(node ch.NodeID) int {
+	mdb, ok := e.w.nodes[node].fac.(*channelstore.MessageDBFactory)
+	if !ok {
+		return -1
+	}
+	n := 0
+	var after ch.ChannelKey
+	for {
+		entries, cursor, more, err := mdb.ListChannelsPage(context.Background(), after, 64)
+		if err != nil {
+			return -1
+		}
+		n += len(entries)
+		if !more {
+			return n
+		}
+		after = cursor
+	}
+}
+
+// opGC runs one pass of the real node-level physical retention driver
+// (pkg/cluster/channel_retention_physical.go RunChannelRetentionGCOnce): one
+// catalog page of the node's MessageDB, the authoritative runtime metadata of
+// every channel on it, ApplyChannelRetentionBoundary with the configured trim
+// budget, cursor kept for the next pass.
+func (e *engine) opGC(node ch.NodeID) {
+	op := e.newOp("gc", node)
+	_, cur := e.latest()
+	op.through = cur.RetentionThroughSeq
+	if cur.RetentionThroughSeq > e.maxReq[node] {
+		e.maxReq[node] = cur.RetentionThroughSeq // the pass hands the authoritative boundary to the local runtime
+	}
+	op.desc = fmt.Sprintf("RunChannelRetentionGCOnce n%d (authoritative boundary %d)", node, cur.RetentionThroughSeq)
+	e.r.Logf("  op%d %s", op.id, op.desc)
+	nd := e.mgmt[node].(*cluster.Node)
+	if e.gcCycles[node] == nil {
+		e.gcCycles[node] = &gcCycle{atStart: e.catalogSize(node)}
+	}
+	go func() {
+		// long-lived context, as the node's GC loop has (see opRetention)
+		ctx, cancel := context.WithTimeout(context.Background(), opTimeout)
+		_ = cancel
+		res, err := nd.RunChannelRetentionGCOnce(ctx)
+		op.err = err
+		op.gc = res
+		e.complete(op)
+	}()
 }
 
 func (e *engine) opAppend(node ch.NodeID) {
@@ -467,6 +586,9 @@ func (e *engine) opSync(node ch.NodeID) {
 		page, err := rd.SyncMessages(ctx, q)
 		op.err = err
 		op.msgs = fromSynced(page.Messages)
+		if err == nil {
+			op.pages = append(op.pages, syncPage{q: q, msgs: fromSynced(page.Messages), hasMore: page.HasMore})
+		}
 		e.complete(op)
 	}()
 }
@@ -485,7 +607,8 @@ func (e *engine) opSyncBatch(node ch.NodeID) {
 		defer cancel()
 		results, err := rd.SyncMessagesBatch(ctx, []message.ChannelMessageQuery{q1, q2})
 		op.err = err
-		for _, res := range results {
+		qs := []message.ChannelMessageQuery{q1, q2}
+		for i, res := range results {
 			if res.Err != nil {
 				if op.err == nil {
 					op.err = res.Err
@@ -493,6 +616,9 @@ func (e *engine) opSyncBatch(node ch.NodeID) {
 				continue
 			}
 			op.msgs = append(op.msgs, fromSynced(res.Page.Messages)...)
+			if i < len(qs) {
+				op.pages = append(op.pages, syncPage{q: qs[i], msgs: fromSynced(res.Page.Messages), hasMore: res.Page.HasMore})
+			}
 		}
 		e.complete(op)
 	}()
@@ -576,6 +702,9 @@ func (e *engine) opRetention(node ch.NodeID) {
 	}
 	op := e.newOp("retention", node)
 	op.through = through
+	if through > e.maxReq[node] {
+		e.maxReq[node] = through
+	}
 	op.desc = fmt.Sprintf("ApplyChannelRetentionBoundary n%d through=%d (%s) maxmsgs=%d maxbytes=%d", node, through, how, opts.MaxTrimMessages, opts.MaxTrimBytes)
 	e.r.Logf("  op%d %s", op.id, op.desc)
 	nd := e.mgmt[node].(*cluster.Node)
